@@ -110,7 +110,15 @@ def new_graph(cls, removal=True):
 
 def _variant(op, n):
     """Deterministic call-form selector: a pure function of the op, so replay files stay exact."""
-    return sum(ord(c) for c in repr(op)) % n
+    try:
+        r = repr(op)
+    except ValueError:          # an op that carries ints beyond the int -> str limit (continuations of shifted histories)
+        def small(x):
+            if isinstance(x, list):
+                return [small(y) for y in x]
+            return x % 10007 if isinstance(x, int) and not isinstance(x, bool) and abs(x) > 10 ** 100 else x
+        r = repr(small(op))
+    return sum(ord(c) for c in r) % n
 
 
 def call_real(G, nodes, op, shift=0):
